@@ -40,10 +40,10 @@ func SpecEqualFold(a, b string) bool { panic("abstract spec function") }
 //@ func sortExtractor
 //@   arith int
 //@   properties C18 C10
-//@   replay keyspec_storeOptions
+//@   replay keyspec_storeOptions keyspec_sortPatterns
 //@   modifies nothing
 //@   ensures the_destination_follows_a_store_option: result != nil ==> len(result) == 2 && result[0] == 0 && 2 <= result[1] && result[1] < len(args) && SpecEqualFold(args[result[1] - 1], "store")
 //@   ensures the_last_store_option_wins: result != nil ==> (forall i int :: result[1] < i && i + 1 < len(args) && SpecEqualFold(args[i], "store") ==> takesWord(args[i - 1]))
-//@   ensures patterns_do_not_hide_the_destination: result == nil && len(args) >= 1 && !takesWord(args[len(args) - 1]) && !SpecEqualFold(args[len(args) - 1], "store") ==> (forall i int :: 1 <= i && i + 1 < len(args) && SpecEqualFold(args[i], "store") ==> takesWord(args[i - 1]))
+//@   ensures patterns_do_not_hide_the_destination [C10]: result == nil && len(args) >= 1 && !takesWord(args[len(args) - 1]) && !SpecEqualFold(args[len(args) - 1], "store") ==> (forall i int :: 1 <= i && i + 1 < len(args) && SpecEqualFold(args[i], "store") ==> takesWord(args[i - 1]))
 //@   loop 1:
 //@     invariant scanned: 1 <= i && (dest == 0 - 1 || (2 <= dest && dest < len(args) && dest < i && SpecEqualFold(args[dest - 1], "store"))) && (forall j int :: ite(dest == 0 - 1, 0, dest) < j && j < i && j + 1 < len(args) && SpecEqualFold(args[j], "store") ==> takesWord(args[j - 1]))
